@@ -9,6 +9,7 @@ import sys
 VERIF = os.path.dirname(os.path.dirname(os.path.abspath(__file__)))
 GROUPS = {
     "V": [("C01", "C09", "C14"), ("C02", "C10", "C15"), ("C03", "C11", "C18"), ("C04", "C12", "C20"), ("C05", "C07", "C13"), ("C06", "C08", "C19")],
+    "X": [("C09", "C12", "C07"), ("C11", "C13", "C10"), ("C03", "C18", "C08")],
     "W": [("C01", "C05", "C11"), ("C03", "C08", "C13"), ("C07", "C10", "C19"), ("C02", "C12", "C18"), ("C04", "C09", "C15"), ("C06", "C14", "C20")],
 }
 
